@@ -20,6 +20,7 @@ import (
 	"github.com/vipnode/vipnode/v2/pool"
 	"github.com/vipnode/vipnode/v2/pool/status"
 	"github.com/vipnode/vipnode/v2/pool/store"
+	"github.com/vipnode/vipnode/v2/pool/store/badger"
 	"verifharness/vlib"
 )
 
@@ -674,6 +675,8 @@ func c10Child() int {
 			for i := 0; i < vlib.Scale(60, 300); i++ {
 				c10NodeRace(ev, driver, s, i)
 			}
+			c10HotKey(ev, driver, s, 48, 20)
+			c10HotKey(ev, driver, s, 128, 12)
 			cleanup()
 			for _, tr := range []string{"local", "remote", "tcp", "http"} {
 				for i := 0; i < vlib.Scale(6, 24); i++ {
@@ -756,6 +759,15 @@ func TestC10(t *testing.T) {
 	for _, driver := range vlib.Drivers() {
 		driver := driver
 		parallelCases(vlib.Scale(6, 40), 3, func(i int) { contractSnapshots(ev, driver, i) })
+	}
+	// the same hot key on an on-disk store (slower commits, longer conflict windows)
+	if dir, err := os.MkdirTemp("", "verif-c10hot-"); err == nil {
+		if ds, err := badger.Open(vlib.BadgerDiskOptions(dir)); err == nil {
+			c10HotKey(ev, "badger-disk", ds, 64, 15)
+			c10HotKey(ev, "badger-disk", ds, 24, 30)
+			ds.Close()
+		}
+		os.RemoveAll(dir)
 	}
 	finish(t, ev)
 }
